@@ -294,6 +294,38 @@ func credSeen(kind, sent string, inHeader bool) string {
 	return sent
 }
 
+// sharedHeaderValue: when the token attributes of several schemes travel in
+// the same request header (two schemes left to the implicit Authorization
+// header), the wire carries one value for all of them: the callback of each
+// scheme may see the value sent for any attribute of that group.
+func sharedHeaderValue(meth *m.Method, payload value.V, scheme, kind, got string) bool {
+	wireOf := func(attr string) string {
+		for _, hm := range meth.HTTP.Headers {
+			if hm.Attr == attr {
+				return strings.ToLower(hm.WireName())
+			}
+		}
+		return ""
+	}
+	own := ""
+	for _, cr := range meth.Creds {
+		if cr.Scheme == scheme && cr.Kind == kind {
+			own = wireOf(cr.Attr)
+		}
+	}
+	if own == "" {
+		return false
+	}
+	for _, cr := range meth.Creds {
+		if (cr.Kind == "token" || cr.Kind == "accesstoken") && !(cr.Scheme == scheme && cr.Kind == kind) && wireOf(cr.Attr) == own {
+			if v, ok := payload.Get(cr.Attr); ok && !v.IsNil() && got == credSeen(cr.Kind, v.S, true) {
+				return true
+			}
+		}
+	}
+	return false
+}
+
 func runCase(b *rt.Built, s *m.Service, meth *m.Method, c *caseRec) string {
 	d := b.Design
 	hc := &harness.Case{Op: "call", Svc: s.Name, Method: meth.Name, HasPayload: meth.Payload != nil, Payload: c.Payload}
@@ -419,12 +451,12 @@ func runCase(b *rt.Built, s *m.Service, meth *m.Method, c *caseRec) string {
 			}
 		case "jwt":
 			k, set := credAttr(ac.Scheme, "token")
-			if set && ac.Key != credSeen("token", k, inHeader(ac.Scheme, "token")) {
+			if set && !sharedHeaderValue(meth, c.Payload, ac.Scheme, "token", ac.Key) && ac.Key != credSeen("token", k, inHeader(ac.Scheme, "token")) {
 				return fmt.Sprintf("JWT scheme %q: callback got %q, the client sent %q", ac.Scheme, ac.Key, k)
 			}
 		case "oauth2":
 			k, set := credAttr(ac.Scheme, "accesstoken")
-			if set && ac.Key != credSeen("accesstoken", k, inHeader(ac.Scheme, "accesstoken")) {
+			if set && !sharedHeaderValue(meth, c.Payload, ac.Scheme, "accesstoken", ac.Key) && ac.Key != credSeen("accesstoken", k, inHeader(ac.Scheme, "accesstoken")) {
 				return fmt.Sprintf("OAuth2 scheme %q: callback got %q, the client sent %q", ac.Scheme, ac.Key, k)
 			}
 		}
